@@ -753,6 +753,11 @@ async fn drive(sc: &Scenario, chooser: Rc<RefCell<Chooser>>) -> Exec {
     let svc = factory.new_service(()).await.expect("service");
     // let the date service run its first tick so the cached clock is the virtual clock
     settle().await;
+    if sc.env.accept_delay_ms > 0 {
+        // the connection is accepted some time after the last date tick: the cached clock lags
+        tokio::time::advance(Duration::from_millis(sc.env.accept_delay_ms)).await;
+        settle().await;
+    }
 
     // segments
     let segments: Vec<Segment> = if sc.segments.is_empty() {
